@@ -99,6 +99,12 @@ func (v *autoEscapeVisitor) escape(n parse.Node, ct string) {
 }
 
 func (v *autoEscapeVisitor) guessTypeFromName(name string) string {
+	if strings.Contains(name, "{{") || strings.Contains(name, "{%") {
+		// Not a file name but the source of an inline template (the string
+		// loader names a template after its source): whatever its text ends
+		// in, "see notes.txt" or "app.js", is no extension.
+		return "html"
+	}
 	name = strings.TrimSuffix(name, ".twig")
 	p := strings.LastIndex(name, ".")
 	if p < 0 {
